@@ -185,20 +185,14 @@ Proof. rewrite ok_from_app. simpl. rewrite andb_true_r. reflexivity. Qed.
 (* ------------------------------------------------------------------ *)
 (* monotone facts of a single step                                       *)
 (* ------------------------------------------------------------------ *)
-Lemma now_step c s x : now s <= now (step c s x).
+Lemma now_step c s x : tick_nonneg x = true -> now s <= now (step c s x).
 Proof.
-  destruct x; simpl; try lia;
+  intros T. destruct x; simpl in *; try (apply Z.leb_le in T); try lia;
     repeat match goal with
            | |- context [if ?b then _ else _] => destruct b; simpl
            | |- context [match ?l with [] => _ | _ => _ end] => destruct l; simpl
            | |- context [match ?o with Some _ => _ | None => _ end] => destruct o as [[? []]|]; simpl
            end; lia.
-Qed.
-
-Lemma now_run c h : forall s, now s <= now (run c h s).
-Proof.
-  induction h as [|x r IH]; simpl; intros s; [lia|].
-  specialize (IH (step c s x)). pose proof (now_step c s x). unfold run in *. simpl. lia.
 Qed.
 
 Lemma ever_step c s x p : In p (ever s) -> In p (ever (step c s x)).
@@ -209,6 +203,7 @@ Proof.
            | |- context [match ?l with [] => _ | _ => _ end] => destruct l; simpl
            | |- context [match ?o with Some _ => _ | None => _ end] => destruct o as [[? []]|]; simpl
            end; auto.
+  - apply in_or_app. auto.
   - apply In_add_set. auto.
   - apply in_or_app. auto.
 Qed.
@@ -294,26 +289,66 @@ Section Hist.
       split; [|assumption]. rewrite <- app_assoc. reflexivity.
   Qed.
 
-  Definition good (h : list label) (p : path) (l : Z) : Prop := unref h p l /\ sched h p.
+  (* the entry (p, ts) was written into pending-deletions.json from outside,
+     and the catalog has not referenced p at any state since *)
+  Definition foreign_in (h : list label) (p : path) (ts : Z) : Prop :=
+    exists a es b, h = a ++ DiskEdit es :: b /\ In (p, ts) es /\
+      forall b1 b2, b = b1 ++ b2 -> amem N.eqb p (cat (runi (a ++ DiskEdit es :: b1))) = false.
 
-  Lemma good_mono h p l l' : good h p l -> l <= l' -> good h p l'.
-  Proof. intros [H1 H2] Hl. split; [eapply unref_mono; eauto|assumption]. Qed.
+  Inductive foreign : list label -> path -> Z -> Prop :=
+  | F_here h es p ts : In (p, ts) es -> amem N.eqb p (cat (runi (h ++ [DiskEdit es]))) = false ->
+                       foreign (h ++ [DiskEdit es]) p ts
+  | F_snoc h x p ts : foreign h p ts -> amem N.eqb p (cat (runi (h ++ [x]))) = false ->
+                      foreign (h ++ [x]) p ts.
 
-  Lemma good_snoc h x p l :
-    good h p l -> amem N.eqb p (cat (step c (runi h) x)) = false -> good (h ++ [x]) p l.
+  Lemma foreign_spec h p ts : foreign h p ts -> foreign_in h p ts.
   Proof.
-    intros [H1 H2] Hc. split; [|apply S_snoc; assumption].
-    apply U_snoc; [assumption|]. unfold runi. rewrite run_snoc. assumption.
+    induction 1 as [h es p ts H1 H2|h x p ts H IH H2].
+    - exists h, es, []. split; [reflexivity|]. split; [assumption|].
+      intros b1 b2 E. symmetry in E. apply app_eq_nil in E. destruct E as [-> _]. assumption.
+    - destruct IH as [a [es [b [E [Hin Hall]]]]]. subst h.
+      exists a, es, (b ++ [x]). split; [rewrite <- app_assoc; reflexivity|]. split; [assumption|].
+      intros b1 b2 E. apply app_snoc_split in E. destruct E as [[-> ->]|[b2' [-> ->]]].
+      + replace (a ++ DiskEdit es :: b ++ [x]) with ((a ++ DiskEdit es :: b) ++ [x])
+          by (rewrite <- app_assoc; reflexivity). assumption.
+      + apply (Hall b1 b2'). reflexivity.
   Qed.
 
-  Lemma good_new h x p :
+  (* where a pending entry (p, ts) comes from: scheduled by the compactor at
+     clock reading ts when p left the catalog (and never referenced since), or
+     written from outside *)
+  Definition origin (h : list label) (p : path) (ts : Z) : Prop :=
+    (unref h p ts /\ sched h p) \/ foreign h p ts.
+
+  Definition origin_in (h : list label) (p : path) (ts : Z) : Prop :=
+    (unref_throughout h p ts /\ scheduled_in h p) \/ foreign_in h p ts.
+
+  Lemma origin_spec h p ts : origin h p ts -> origin_in h p ts.
+  Proof.
+    intros [[H1 H2]|H]; [left; split; [apply unref_spec|apply sched_spec]; assumption|].
+    right. apply foreign_spec. assumption.
+  Qed.
+
+  Lemma origin_snoc h x p ts :
+    origin h p ts -> amem N.eqb p (cat (step c (runi h) x)) = false -> origin (h ++ [x]) p ts.
+  Proof.
+    intros [[H1 H2]|H] Hc.
+    - left. split; [|apply S_snoc; assumption].
+      apply U_snoc; [assumption|]. unfold runi. rewrite run_snoc. assumption.
+    - right. apply F_snoc; [assumption|]. unfold runi. rewrite run_snoc. assumption.
+  Qed.
+
+  Lemma origin_new h x p :
     In p (schedules c (runi h) x) -> amem N.eqb p (cat (step c (runi h) x)) = false ->
     now (step c (runi h) x) = now (runi h) ->
-    good (h ++ [x]) p (now (runi h)).
+    origin (h ++ [x]) p (now (runi h)).
   Proof.
-    intros Hs Hc Hn. split; [|apply S_here; assumption].
+    intros Hs Hc Hn. left. split; [|apply S_here; assumption].
     apply U_here; unfold runi; rewrite run_snoc; fold (runi h); [lia|assumption].
   Qed.
+
+  (* a selected path: some entry at most as late as the pass's cut-off justifies it *)
+  Definition good (h : list label) (p : path) (l : Z) : Prop := exists ts, ts <= l /\ origin h p ts.
 
   (* ---------------- invariants ---------------- *)
   Definition entries (s : st) (p : path) (ts : Z) : Prop :=
@@ -321,14 +356,13 @@ Section Hist.
 
   (* state invariant *)
   Definition Sinv (s : st) : Prop :=
-    (forall p ts, entries s p ts -> ts <= now s /\ In p (ever s) /\ amem N.eqb p (cat s) = false) /\
-    (forall p, In p (gcsel s) -> In p (ever s) /\ amem N.eqb p (cat s) = false /\
-                                   gc_cutoff s <= now s - g_grace c) /\
+    (forall p ts, entries s p ts -> In p (ever s) /\ amem N.eqb p (cat s) = false) /\
+    (forall p, In p (gcsel s) -> In p (ever s) /\ amem N.eqb p (cat s) = false) /\
     (forall p, amem N.eqb p (cat s) = true -> In p (ever s)).
 
   (* history invariant *)
   Definition Hinv (h : list label) (s : st) : Prop :=
-    (forall p ts, entries s p ts -> good h p ts) /\
+    (forall p ts, entries s p ts -> origin h p ts) /\
     (forall p, In p (gcsel s) -> good h p (gc_cutoff s)).
 
   Lemma schedules_out_of_cat s x p :
@@ -347,28 +381,6 @@ Section Hist.
     destruct (amem N.eqb tgt (cat_remove srcs (cat s))); [reflexivity|intros []].
   Qed.
 
-  (* generic preservation of the history invariant *)
-  Lemma hinv_step_gen h x :
-    let s := runi h in let s' := step c s x in
-    Sinv s -> Hinv h s -> guard s x = true ->
-    (forall p ts, entries s' p ts -> entries s p ts \/ (In p (schedules c s x) /\ ts = now s)) ->
-    (forall p, In p (gcsel s') ->
-       (In p (gcsel s) /\ gc_cutoff s' = gc_cutoff s) \/
-       (exists ts, entries s p ts /\ ts <= gc_cutoff s')) ->
-    Hinv (h ++ [x]) s'.
-  Proof.
-    intros s s' [S1 [S2 S3]] [H1 H2] G E1 E2. split.
-    - intros p ts He. destruct (E1 p ts He) as [Ho|[Hs ->]].
-      + apply good_snoc; [apply H1; assumption|].
-        destruct (S1 p ts Ho) as [_ [Hev Hc]]. apply cat_step_stays_out; assumption.
-      + apply good_new; [assumption|apply schedules_out_of_cat; assumption|apply schedules_now with p; assumption].
-    - intros p Hin. destruct (E2 p Hin) as [[Ho Hcut]|[ts [Ho Hle]]].
-      + fold s'. rewrite Hcut. apply good_snoc; [apply H2; assumption|].
-        destruct (S2 p Ho) as [Hev [Hc _]]. apply cat_step_stays_out; assumption.
-      + apply good_mono with ts; [|assumption]. apply good_snoc; [apply H1; assumption|].
-        destruct (S1 p ts Ho) as [_ [Hev Hc]]. apply cat_step_stays_out; assumption.
-  Qed.
-
   Ltac split_step :=
     repeat match goal with
            | |- context [if ?b then _ else _] => let E := fresh "E" in destruct b eqn:E; simpl
@@ -379,9 +391,14 @@ Section Hist.
 
   (* entries / gcsel of the successor state, step by step *)
   Lemma entries_step s x p ts :
-    entries (step c s x) p ts -> entries s p ts \/ (In p (schedules c s x) /\ ts = now s).
+    entries (step c s x) p ts ->
+    entries s p ts \/ (In p (schedules c s x) /\ ts = now s) \/
+    (exists es, x = DiskEdit es /\ In (p, ts) es).
   Proof.
     unfold entries. destruct x; simpl; auto.
+    - (* DiskEdit *)
+      intros [H|[H|H]]; auto. apply in_app_or in H. destruct H as [H|H]; auto.
+      right. right. eauto.
     - (* Swap *)
       destruct (amem N.eqb tgt (cat_remove srcs (cat s))) eqn:E; simpl; [|auto].
       intros [H|H]; [|auto]. apply in_app_or in H. destruct H as [H|H]; [auto|].
@@ -408,7 +425,7 @@ Section Hist.
     In p (gcsel (step c s x)) ->
     (In p (gcsel s) /\ gc_cutoff (step c s x) = gc_cutoff s) \/
     (exists ts, entries s p ts /\ ts <= gc_cutoff (step c s x) /\
-                gc_cutoff (step c s x) = now s - g_grace c).
+                gc_cutoff (step c s x) = now s - g_grace c /\ x = GcFilter).
   Proof.
     destruct x; simpl; auto.
     - split_step; simpl; auto.
@@ -431,31 +448,34 @@ Section Hist.
     - split_step; auto.
   Qed.
 
-  Lemma gc_cutoff_step_same s x :
-    (forall p, ~ In p (gcsel (step c s x))) \/ gc_cutoff (step c s x) = gc_cutoff s \/
-    gc_cutoff (step c s x) = now s - g_grace c.
+  Lemma diskedit_out_of_cat s es p ts :
+    guard s (DiskEdit es) = true -> In (p, ts) es ->
+    amem N.eqb p (cat (step c s (DiskEdit es))) = false /\ In p (ever (step c s (DiskEdit es))).
   Proof.
-    destruct x; simpl; auto; split_step; simpl; auto.
+    simpl. intros G Hin. rewrite forallb_forall in G. specialize (G _ Hin). simpl in G.
+    apply negb_true_iff in G. split; [assumption|].
+    apply in_or_app. left. apply in_map_iff. exists (p, ts). auto.
   Qed.
 
   Lemma sinv_step s x : Sinv s -> guard s x = true -> Sinv (step c s x).
   Proof.
     intros [S1 [S2 S3]] G. split; [|split].
-    - intros p ts He. destruct (entries_step _ _ _ _ He) as [Ho|[Hs ->]].
-      + destruct (S1 p ts Ho) as [Hn [Hev Hc]]. pose proof (now_step c s x).
-        split; [lia|]. split; [apply ever_step; assumption|apply cat_step_stays_out; assumption].
-      + rewrite (schedules_now _ _ _ Hs). split; [lia|]. split; [|apply schedules_out_of_cat; assumption].
+    - intros p ts He. destruct (entries_step _ _ _ _ He) as [Ho|[[Hs ->]|[es [-> Hin]]]].
+      + destruct (S1 p ts Ho) as [Hev Hc].
+        split; [apply ever_step; assumption|apply cat_step_stays_out; assumption].
+      + split; [|apply schedules_out_of_cat; assumption].
         destruct x; simpl in Hs; try tauto.
         * destruct (amem N.eqb tgt (cat_remove srcs (cat s))) eqn:E; [|destruct Hs].
           simpl. rewrite E. simpl. apply in_or_app. auto.
         * simpl. apply S3. apply in_map_iff in Hs. destruct Hs as [[q [mn mx]] [Hq Hin]].
           simpl in Hq. subst q. apply In_ret_select in Hin. apply amem_true_iff. exists (mn, mx). tauto.
-    - intros p Hin. pose proof (now_step c s x) as Hn.
-      destruct (gcsel_step _ _ _ Hin) as [[Ho Hcut]|[ts [Ho [Hle Hcut]]]].
-      + destruct (S2 p Ho) as [Hev [Hc Hg]].
-        split; [apply ever_step; assumption|]. split; [apply cat_step_stays_out; assumption|lia].
-      + destruct (S1 p ts Ho) as [_ [Hev Hc]].
-        split; [apply ever_step; assumption|]. split; [apply cat_step_stays_out; assumption|lia].
+      + destruct (diskedit_out_of_cat s es p ts G Hin). auto.
+    - intros p Hin.
+      destruct (gcsel_step _ _ _ Hin) as [[Ho Hcut]|[ts [Ho _]]].
+      + destruct (S2 p Ho) as [Hev Hc].
+        split; [apply ever_step; assumption|apply cat_step_stays_out; assumption].
+      + destruct (S1 p ts Ho) as [Hev Hc].
+        split; [apply ever_step; assumption|apply cat_step_stays_out; assumption].
     - intros p Hc. apply cat_step_gain in Hc. destruct Hc as [Hc|[mn [mx ->]]].
       + apply ever_step. auto.
       + simpl. apply In_add_set. auto.
@@ -465,10 +485,20 @@ Section Hist.
     Sinv (runi h) -> Hinv h (runi h) -> guard (runi h) x = true ->
     Hinv (h ++ [x]) (step c (runi h) x).
   Proof.
-    intros S H G. apply hinv_step_gen; try assumption.
-    - intros p ts He. apply entries_step. assumption.
-    - intros p Hin. destruct (gcsel_step _ _ _ Hin) as [Ho|[ts [Ho [Hle _]]]]; [auto|].
-      right. exists ts. auto.
+    intros [S1 [S2 S3]] [H1 H2] G. set (s := runi h) in *. split.
+    - intros p ts He. destruct (entries_step _ _ _ _ He) as [Ho|[[Hs ->]|[es [-> Hin]]]].
+      + apply origin_snoc; [apply H1; assumption|].
+        destruct (S1 p ts Ho) as [Hev Hc]. apply cat_step_stays_out; assumption.
+      + apply origin_new; [assumption|apply schedules_out_of_cat; assumption|
+                           apply schedules_now with p; assumption].
+      + right. apply F_here; [assumption|]. unfold runi. rewrite run_snoc. fold (runi h). fold s.
+        apply (diskedit_out_of_cat s es p ts G Hin).
+    - intros p Hin. destruct (gcsel_step _ _ _ Hin) as [[Ho Hcut]|[ts [Ho [Hle _]]]].
+      + rewrite Hcut. destruct (H2 p Ho) as [ts [Hle Hor]]. exists ts. split; [assumption|].
+        apply origin_snoc; [assumption|].
+        destruct (S2 p Ho) as [Hev Hc]. apply cat_step_stays_out; assumption.
+      + exists ts. split; [assumption|]. apply origin_snoc; [apply H1; assumption|].
+        destruct (S1 p ts Ho) as [Hev Hc]. apply cat_step_stays_out; assumption.
   Qed.
 
   Lemma sinv_init : Sinv (init t0).
@@ -490,41 +520,85 @@ Section Hist.
   (* ---------------- deletes come from the selection ---------------- *)
   Lemma deletes_selected s x p :
     In p (deletes c s x) ->
-    In p (gcsel s) \/
-    (exists ts, In (p, ts) (pending s) /\ ts <= now s - g_grace c /\ ~ In p (pins s)).
+    (In p (gcsel s) /\ pass_time c s x = gc_cutoff s + g_grace c) \/
+    (exists ts, In (p, ts) (pending s) /\ ts <= now s - g_grace c /\ ~ In p (pins s) /\
+                pass_time c s x = now s).
   Proof.
     destruct x; simpl; try tauto.
     - destruct (gc_active s && memN p0 (gcsel s)) eqn:E; [|intros []].
       intros [<-|[]]. apply andb_true_iff in E. destruct E as [_ E]. apply memN_In in E. auto.
-    - destruct (gc_active s); [intros []|]. intros H. apply In_gc_select in H. auto.
+    - destruct (gc_active s); [intros []|]. intros H. apply In_gc_select in H.
+      destruct H as [ts [H1 [H2 H3]]]. right. exists ts. auto.
   Qed.
 
-  (* gc_after_grace *)
+  (* gc_after_grace, for arbitrary clock steps and foreign entries: whatever a
+     step deletes is justified by an entry (p, ts) whose own timestamp lies at
+     least the grace period before the clock reading the pass took at its
+     filter; the entry was either scheduled by the compactor at reading ts
+     when p left the catalog, or written into the file from outside; p has not
+     been referenced since, and is not referenced now *)
   Theorem gc_after_grace h x p :
     ok_from c (init t0) (h ++ [x]) = true ->
     In p (deletes c (runi h) x) ->
-    unref_throughout h p (now (runi h) - g_grace c) /\ amem N.eqb p (cat (runi h)) = false.
+    amem N.eqb p (cat (runi h)) = false /\
+    exists ts, ts + g_grace c <= pass_time c (runi h) x /\ origin_in h p ts.
   Proof.
     intros Hok Hd. rewrite ok_from_snoc in Hok. apply andb_true_iff in Hok. destruct Hok as [Hok _].
     destruct (invariants h Hok) as [[S1 [S2 S3]] [H1 H2]].
-    destruct (deletes_selected _ _ _ Hd) as [Hs|[ts [Hp [Hle _]]]].
-    - destruct (S2 p Hs) as [_ [Hc Hg]]. split; [|assumption].
-      apply unref_spec. destruct (H2 p Hs) as [Hu _]. eapply unref_mono; eauto.
+    destruct (deletes_selected _ _ _ Hd) as [[Hs Hpt]|[ts [Hp [Hle [_ Hpt]]]]].
+    - destruct (S2 p Hs) as [_ Hc]. split; [assumption|].
+      destruct (H2 p Hs) as [ts [Hle Hor]]. exists ts. split; [lia|apply origin_spec; assumption].
     - assert (He : entries (runi h) p ts) by (left; assumption).
-      destruct (S1 p ts He) as [_ [_ Hc]]. split; [|assumption].
-      apply unref_spec. destruct (H1 p ts He) as [Hu _]. eapply unref_mono; eauto.
+      destruct (S1 p ts He) as [_ Hc]. split; [assumption|].
+      exists ts. split; [lia|apply origin_spec; apply H1; assumption].
   Qed.
 
-  (* only_scheduled_deleted, part 1: whatever a step deletes was scheduled *)
+  (* while the wall clock is never stepped back, the filter's reading is not
+     later than the reading at the delete *)
+  Lemma pass_time_le_now h :
+    forallb tick_nonneg h = true ->
+    forall p, In p (gcsel (runi h)) -> gc_cutoff (runi h) + g_grace c <= now (runi h).
+  Proof.
+    induction h as [|x h IH] using rev_ind; intros Hm p Hin.
+    - unfold runi, init in Hin. simpl in Hin. destruct Hin.
+    - rewrite forallb_app in Hm. apply andb_true_iff in Hm. destruct Hm as [Hm Hx].
+      simpl in Hx. rewrite andb_true_r in Hx.
+      unfold runi in *. rewrite run_snoc in *. fold (runi h) in *.
+      pose proof (now_step c (runi h) x Hx) as Hn.
+      destruct (gcsel_step _ _ _ Hin) as [[Ho Hcut]|[ts [_ [_ [Hcut ->]]]]].
+      + rewrite Hcut. specialize (IH Hm p Ho). lia.
+      + rewrite Hcut. lia.
+  Qed.
+
+  (* the statement in the property's words, for a clock that is never stepped
+     back and entries the compactor scheduled itself: the deleted file has
+     been unreferenced since a clock reading at least one grace period before
+     the reading at the delete *)
+  Theorem gc_after_grace_monotone h x p :
+    ok_from c (init t0) (h ++ [x]) = true ->
+    forallb tick_nonneg h = true ->
+    In p (deletes c (runi h) x) ->
+    exists ts, ts + g_grace c <= now (runi h) /\
+      ((unref_throughout h p (now (runi h) - g_grace c) /\ scheduled_in h p) \/ foreign_in h p ts).
+  Proof.
+    intros Hok Hm Hd. destruct (gc_after_grace h x p Hok Hd) as [_ [ts [Hle Hor]]].
+    assert (Hpt : pass_time c (runi h) x <= now (runi h)).
+    { destruct (deletes_selected _ _ _ Hd) as [[Hs Hpt]|[ts' [_ [_ [_ Hpt]]]]]; rewrite Hpt; [|lia].
+      apply (pass_time_le_now h Hm p Hs). }
+    exists ts. split; [lia|].
+    destruct Hor as [[Hu Hs]|Hf]; [left|right; assumption].
+    split; [|assumption].
+    destruct Hu as [a [b [E [Hn Hall]]]]. exists a, b. split; [assumption|]. split; [lia|assumption].
+  Qed.
+
+  (* only_scheduled_deleted, part 1: whatever a step deletes was scheduled by
+     the compactor or named by an entry written into the file from outside *)
   Theorem deleted_was_scheduled h x p :
     ok_from c (init t0) (h ++ [x]) = true ->
-    In p (deletes c (runi h) x) -> scheduled_in h p.
+    In p (deletes c (runi h) x) ->
+    scheduled_in h p \/ exists ts, foreign_in h p ts.
   Proof.
-    intros Hok Hd. rewrite ok_from_snoc in Hok. apply andb_true_iff in Hok. destruct Hok as [Hok _].
-    destruct (invariants h Hok) as [_ [H1 H2]].
-    destruct (deletes_selected _ _ _ Hd) as [Hs|[ts [Hp _]]].
-    - apply sched_spec. apply (H2 p Hs).
-    - apply sched_spec. apply (H1 p ts). left. assumption.
+    intros Hok Hd. destruct (gc_after_grace h x p Hok Hd) as [_ [ts [_ [[_ Hs]|Hf]]]]; eauto.
   Qed.
 End Hist.
 
@@ -681,7 +755,7 @@ Proof.
   destruct (aget N.eqb q (queries (runi c t0 h))) as [[ps []]|]; auto.
   destruct (existsb (fun p => memN p (gcsel (runi c t0 h))) ps) eqn:E; [|reflexivity].
   apply existsb_exists in E. destruct E as [p [Hp Hm]]. apply memN_In in Hm.
-  destruct (S2 p Hm) as [_ [Hc _]].
+  destruct (S2 p Hm) as [_ Hc].
   rewrite forallb_forall in F. specialize (F p Hp). congruence.
 Qed.
 
@@ -711,7 +785,7 @@ Qed.
 (* ------------------------------------------------------------------ *)
 Theorem retention_only_old c s p :
   amem N.eqb p (cat s) = true -> amem N.eqb p (cat (step c s Retention)) = false ->
-  exists mn mx, In (p, (mn, mx)) (cat s) /\ mx < ret_cutoff c (now s).
+  exists mn mx, In (p, (mn, mx)) (cat s) /\ mx < ret_cutoff c (bclock s).
 Proof.
   simpl. rewrite amem_cat_remove. intros H1 H2. rewrite H1 in H2. simpl in H2.
   apply negb_false_iff, memN_In, in_map_iff in H2. destruct H2 as [[q [mn mx]] [Hq Hin]].
@@ -749,7 +823,7 @@ Proof. apply retention_log_only_old. intros e' []. Qed.
 Theorem catalog_removal_causes c s x p :
   amem N.eqb p (cat s) = true -> amem N.eqb p (cat (step c s x)) = false ->
   (exists srcs tgt, x = Swap srcs tgt /\ In p srcs) \/
-  (x = Retention /\ exists mn mx, In (p, (mn, mx)) (cat s) /\ mx < ret_cutoff c (now s)).
+  (x = Retention /\ exists mn mx, In (p, (mn, mx)) (cat s) /\ mx < ret_cutoff c (bclock s)).
 Proof.
   intros H1 H2. destruct x; try (simpl in H2; congruence).
   - simpl in H2. rewrite amem_aset, H1, orb_true_r in H2. discriminate.
@@ -923,3 +997,32 @@ Proof.
   vm_compute. split; [auto|]. split; [|split; [tauto|reflexivity]].
   intros q t [H|[]]. inversion H. subst. discriminate.
 Qed.
+
+(* entries dated ahead of the local clock, and a clock stepped back: the entry
+   waits until the clock has passed its own timestamp by the grace period *)
+Example future_entry_waits :
+  let pre := [DiskEdit [(9%N, 125); (8%N, 40)]; Restart; Load] in
+  ok_from cfg5 (init 100) (pre ++ [GcFilter; GcDelete 8%N; GcEnd; Tick 29; GcFilter; Tick 1; GcFilter]) = true /\
+  (* at 100: only the entry due long ago is selected, not the one 25 s ahead *)
+  gcsel (run cfg5 (pre ++ [GcFilter]) (init 100)) = [8%N] /\
+  (* at 129 = 125 + 5 - 1: still nothing *)
+  gcsel (run cfg5 (pre ++ [GcFilter; GcDelete 8%N; GcEnd; Tick 29; GcFilter]) (init 100)) = [] /\
+  (* at 130: due *)
+  gcsel (run cfg5 (pre ++ [GcFilter; GcDelete 8%N; GcEnd; Tick 29; GcFilter; Tick 1; GcFilter]) (init 100)) = [9%N].
+Proof. vm_compute. auto. Qed.
+
+Example clock_stepped_back_waits :
+  let pre := [Register 1%N 0 10; Register 2%N 0 10; Swap [1%N] 2%N; Tick (-30)] in
+  ok_from cfg5 (init 100) pre = true /\ forallb tick_nonneg pre = false /\
+  gcsel (run cfg5 (pre ++ [Tick 34; GcFilter]) (init 100)) = [] /\
+  gcsel (run cfg5 (pre ++ [Tick 35; GcFilter]) (init 100)) = [1%N].
+Proof. vm_compute. auto. Qed.
+
+(* the retention cut-off comes from the bounded clock: after the wall clock is
+   stepped back it does not move back *)
+Example retention_clock_never_backwards :
+  let now0 := 10 * day in
+  let cut := ret_cutoff cfg0 now0 in
+  let h := [Retention; Tick (-5); Register 1%N (cut - 100) (cut - 1); Retention] in
+  map fst (cat (run cfg0 h (init now0))) = [] /\ hw (run cfg0 h (init now0)) = now0 + 1.
+Proof. vm_compute. auto. Qed.
